@@ -75,7 +75,7 @@ REGISTRY.update({
     "C09": dict(**_p(EV_FILES + ["Proofs/C08Proofs.v", "Proofs/C09Proofs.v"], ["Props/C09.v"], ["Ledger", "Arb", "Consts"]),
                 theorems=["C09_recover_holds", "C09_rounding_holds", "C09_linear_shape_holds", "C09_convexe_shape_holds"],
                 corr=["rec.status", "rec.dmg", "rec.hdmg", "rec.arb", "sched.status", "delta.total"],
-                monitors=[M.mon_c09]),
+                monitors=[M.mon_c09], extra=X.extra_c09),
     "C10": dict(**_p(EV_FILES + ["Proofs/C10Proofs.v"], ["Props/C10.v"], ["Phases", "Arb"]),
                 theorems=["C10_activate_holds", "C10_start_holds", "C10_ledgers_monotone_holds", "C10_step_monotone_holds",
                           "C10_prefix_holds"],
@@ -134,6 +134,11 @@ REGISTRY.update({
                 corr=ECON_OBS + INIT_OBS + ["delta.total", "reb.ledger_i", "reb.ledger_h", "rec.dmg", "rec.arb", "reb.create.reject"],
                 monitors=[M.mon_finite], extra=X.extra_c20),
 })
+REGISTRY["C09"]["coq_files"] += ["Model/Ctor.v", "Corr/CheckIO.v"]
+REGISTRY["C16"]["coq_files"] += ["Model/Records.v", "Spec/StatementsRec.v", "Proofs/C16RecProofs.v"]
+REGISTRY["C16"]["theorems"] += ["C16_recorded_holds", "C16_recorded_length_holds", "C16_recorded_prefix_holds", "C16_run_records_holds"]
+REGISTRY["C11"]["coq_files"] += ["Spec/StatementsCarry.v", "Proofs/C11CarryProofs.v"]
+REGISTRY["C11"]["theorems"] += ["C11_carry_ids_holds", "C11_carry_blocks_holds"]
 REGISTRY["C05"]["coq_files"] += RUN_FILES + ["Proofs/C16Proofs.v"]
 REGISTRY["C05"]["theorems"] += ["C05_nonneg_step_holds", "C05_nonneg_run_holds", "C05_stops_holds"]
 REGISTRY["C14"]["coq_files"] += EV_FILES + RUN_FILES + ["Spec/StatementsWF.v", "Proofs/C20Aux.v", "Proofs/C20Proofs.v"]
